@@ -402,7 +402,11 @@ func (x *Exec) doAlloc(st *State, fr *Frame, in *ssa.Alloc) Val {
 		r := x.allocRefT(st, T)
 		name, srt := x.arrName(u.Elem())
 		arr := x.getArr(st, name, srt)
-		x.setArr(st, name, srt, app("store", arr, r, x.reg.zero(T)))
+		if u.Len() > 0 {
+			// (a zero-length backing array, as `[]T{}` allocates, has no element to initialise: the heap array
+			// keeps its version, which spares every later read a select-over-store step)
+			x.setArr(st, name, srt, app("store", arr, r, x.reg.zero(T)))
+		}
 		return &Place{Kind: pkElem, Ref: r, Base: u.Elem(), T: T, ArrayPtr: true, ArrLen: u.Len()}
 	}
 	if in.Heap && escapesAsValue(in) {
